@@ -46,6 +46,20 @@ def canon_exc(e: BaseException) -> str:
     return type(e).__name__
 
 
+def canon_load_exc(e: BaseException, anchor) -> str:
+    """As `canon_exc`, plus — for the OS errors, which carry it — the file the exception is about,
+    relative to `anchor` (the directory that contains `states/`)."""
+    name = canon_exc(e)
+    if isinstance(e, OSError) and name in ("FileNotFoundError", "FileExistsError",
+                                           "NotADirectoryError", "IsADirectoryError"):
+        fn = e.filename
+        if fn is None:
+            # StateStore.load_state raises FileNotFoundError(message) for a missing directory
+            return name + "@?"
+        return name + "@" + os.path.relpath(os.fspath(fn), os.fspath(anchor))
+    return name
+
+
 def ext_of_float(x: float) -> str:
     if math.isnan(x):
         return "nan"
